@@ -13,6 +13,7 @@ import (
 	"sort"
 	"strconv"
 	"sync"
+	"time"
 )
 
 var (
@@ -200,6 +201,10 @@ func AutoSchedule() {}
 // threads switch at synchronisation operations, every schedule with at most `preemptions`
 // preemptive switches is explored. Natively inert (the Go runtime schedules).
 func Schedule(preemptions int) {}
+
+// Quiesce waits until every goroutine started so far has finished (VM: exactly, a goroutine
+// that cannot finish is reported as a deadlock; natively: a short sleep).
+func Quiesce() { time.Sleep(20 * time.Millisecond) }
 
 // ---------------------------------------------------------------- native driver
 
